@@ -139,7 +139,7 @@ pub fn check(font: &FontRef, man: &Value, gid_of: &HashMap<String, u32>, out: &m
                 out.viol("C19", format!("OS/2 usWidthClass {v} in the source came out as {got}"));
             }
         }
-        "comp-scale" | "comp-offset" | "coord" | "coord-diff" | "lsb" | "var-delta" => {
+        "comp-scale" | "comp-offset" | "coord" | "coord-diff" | "lsb" | "var-delta" if true => {
             let glyphs = man["glyphs"].as_array().cloned().unwrap_or_default();
             let by_name: HashMap<String, &Value> = glyphs.iter().map(|g| (g["name"].as_str().unwrap().to_string(), g)).collect();
             let default_name = man["masters"][0]["name"].as_str().unwrap_or("");
@@ -203,6 +203,99 @@ pub fn check(font: &FontRef, man: &Value, gid_of: &HashMap<String, u32>, out: &m
                 }
             }
         }
+        "cubic-arch" => {
+            let name = b["glyph"].as_str().unwrap_or("");
+            let glyphs = man["glyphs"].as_array().cloned().unwrap_or_default();
+            let default_name = man["masters"][0]["name"].as_str().unwrap_or("");
+            let (Some(g), Some(&gid)) = (glyphs.iter().find(|g| g["name"].as_str() == Some(name)), gid_of.get(name)) else { return };
+            let Some(layer) = g["layers"].get(default_name) else { return };
+            let mut src = vec![];
+            for c in layer["contours"].as_array().cloned().unwrap_or_default() {
+                let pts: Vec<(f64, f64, String)> = c.as_array().unwrap().iter().map(|p| (f(&p[0]), f(&p[1]), p[2].as_str().unwrap_or("line").to_string())).collect();
+                src.extend(sample_source(&pts));
+            }
+            let Ok(gp) = vf::glyph_points(font, gid) else { return };
+            let got = sample_truetype(&gp);
+            let bb = |v: &[(f64, f64)]| v.iter().fold((f64::MAX, f64::MAX, f64::MIN, f64::MIN), |a, p| (a.0.min(p.0), a.1.min(p.1), a.2.max(p.0), a.3.max(p.1)));
+            let (s, g2) = (bb(&src), bb(&got));
+            out.stat("c19_shapes_compared", 1.0);
+            let tol = 3.0 + v * 0.004; // cu2qu tolerance is upem/1000; sampling error of a 32-step polyline
+            if got.is_empty() || (s.0 - g2.0).abs() > tol || (s.1 - g2.1).abs() > tol || (s.2 - g2.2).abs() > tol || (s.3 - g2.3).abs() > tol {
+                out.viol("C19", format!("glyph '{name}': the curve drawn by the font covers {g2:?} but the source curve covers {s:?} (tolerance {tol:.0})"));
+            }
+        }
         _ => {}
     }
+}
+
+fn lerp(a: (f64, f64), b: (f64, f64), t: f64) -> (f64, f64) {
+    (a.0 + (b.0 - a.0) * t, a.1 + (b.1 - a.1) * t)
+}
+
+/// Sample a closed UFO contour (points typed line / curve / qcurve / off) as a polyline.
+fn sample_source(pts: &[(f64, f64, String)]) -> Vec<(f64, f64)> {
+    let n = pts.len();
+    let Some(start) = pts.iter().position(|p| p.2 != "off") else { return vec![] };
+    let mut out = vec![];
+    let mut cur = (pts[start].0, pts[start].1);
+    let mut offs: Vec<(f64, f64)> = vec![];
+    for k in 1..=n {
+        let p = &pts[(start + k) % n];
+        if p.2 == "off" {
+            offs.push((p.0, p.1));
+            continue;
+        }
+        let end = (p.0, p.1);
+        match (p.2.as_str(), offs.len()) {
+            ("curve", 2) => {
+                for i in 0..=32 {
+                    let t = i as f64 / 32.0;
+                    let (a, b2, c) = (lerp(cur, offs[0], t), lerp(offs[0], offs[1], t), lerp(offs[1], end, t));
+                    out.push(lerp(lerp(a, b2, t), lerp(b2, c, t), t));
+                }
+            }
+            ("qcurve", m) if m > 0 => {
+                let mut s = cur;
+                for (i, o) in offs.iter().enumerate() {
+                    let e = if i + 1 < m { lerp(*o, offs[i + 1], 0.5) } else { end };
+                    for j in 0..=32 {
+                        let t = j as f64 / 32.0;
+                        out.push(lerp(lerp(s, *o, t), lerp(*o, e, t), t));
+                    }
+                    s = e;
+                }
+            }
+            _ => {
+                out.push(cur);
+                out.push(end);
+            }
+        }
+        offs.clear();
+        cur = end;
+    }
+    out
+}
+
+/// Sample a TrueType simple glyph (implied on-curve points between consecutive off-curve points).
+fn sample_truetype(gp: &vf::GlyphPoints) -> Vec<(f64, f64)> {
+    let mut out = vec![];
+    let mut s = 0;
+    for &e in &gp.contour_ends {
+        if e >= gp.pts.len() || e < s {
+            break;
+        }
+        let pts: Vec<(f64, f64, String)> = (s..=e).map(|i| (gp.pts[i].0, gp.pts[i].1, if gp.on_curve[i] { "qcurve".to_string() } else { "off".to_string() })).collect();
+        if pts.iter().all(|p| p.2 == "off") {
+            // all off-curve: start at the midpoint of the first two
+            let m = lerp((pts[0].0, pts[0].1), (pts[1 % pts.len()].0, pts[1 % pts.len()].1), 0.5);
+            let mut q = vec![(m.0, m.1, "qcurve".to_string())];
+            q.extend(pts.iter().cloned().cycle().skip(1).take(pts.len()));
+            out.extend(sample_source(&q));
+        } else {
+            // an on-curve point that ends a segment without off-curves is a line end: sample_source treats qcurve with 0 offs as a line
+            out.extend(sample_source(&pts));
+        }
+        s = e + 1;
+    }
+    out
 }
